@@ -1188,3 +1188,62 @@ Example C16_outgoing_nonvacuous :
   guard evs = true /\ all_answered evs /\ no_in_async evs = true /\
   futs (run evs) = [] /\ rtypes (run evs) = [] /\ length (ofuts (run evs)) = 3.
 Proof. vm_compute. repeat split. Qed.
+
+(* ------------------------------------------------------------------ a reply during the write *)
+(* Responses neither read nor write `out`: handling one commutes with the write. *)
+Lemma complete_set_out s k oc v : complete (set_out s v) k oc = set_out (complete s k oc) v.
+Proof.
+  unfold complete. cbn [ofuts set_out]. destruct (nget k (ofuts s)) as [o|]; [|reflexivity].
+  destruct (is_pending (ost o)); [|reflexivity]. unfold run_callbacks.
+  destruct oc; cbn [ost set_ost ocb]; [|reflexivity].
+  destruct (ocb o) as [| |t u]; [reflexivity|reflexivity|]. destruct u; reflexivity.
+Qed.
+
+Lemma handle_response_set_out s i oc v :
+  handle_response (set_out s v) i oc = set_out (handle_response s i oc) v.
+Proof.
+  unfold handle_response. cbn [futs set_out]. destruct (iget i (futs s)) as [[k|]|]; try reflexivity.
+  rewrite <- complete_set_out. reflexivity.
+Qed.
+
+Lemma step_response_set_out s e v :
+  is_resp e = true -> step (set_out s v) e = set_out (step s e) v.
+Proof.
+  destruct e as [m rt cb mid|j p oks|j c m d|k0|j|j|j res|j]; try discriminate; intros _; cbn [step].
+  - cbn [rtypes set_out]. destruct (iget j (rtypes s)) as [rt|]; [|reflexivity].
+    destruct (mem_n rt oks); [|reflexivity]. rewrite <- handle_response_set_out. reflexivity.
+  - destruct (int32 c); [|reflexivity]. rewrite <- handle_response_set_out. reflexivity.
+Qed.
+
+Lemma step_response_out s e : is_resp e = true -> out (step s e) = out s.
+Proof.
+  destruct e as [m rt cb mid|j p oks|j c m d|k0|j|j|j res|j]; try discriminate; intros _; cbn [step].
+  - destruct (iget j (rtypes s)) as [rt|]; [|reflexivity]. destruct (mem_n rt oks); [|reflexivity].
+    destruct (handle_response_tables (set_rtypes s (adel id_eqb j (rtypes s))) j (ORes rt p))
+      as (_ & _ & A & _). exact A.
+  - destruct (int32 c); [|reflexivity].
+    destruct (handle_response_tables (set_rtypes s (adel id_eqb j (rtypes s))) j (OErr c m d))
+      as (_ & _ & A & _). exact A.
+Qed.
+
+(* reply_during_write: send_request registers the future and the result type BEFORE it hands the
+   request to the writer.  So a reply dispatched while the write is still in progress (state:
+   registered, frame not yet accounted as written) leads to the same state as the same reply
+   dispatched right after send_request returned - which is the case C05 speaks of. *)
+Theorem reply_during_write s m rt cb mid w e :
+  is_resp e = true ->
+  send_write (step (send_register s m rt cb mid w) e) (WReq (send_id_of s mid) m (send_arg cb w))
+  = step (send_request s m rt cb mid w) e.
+Proof.
+  intros R. unfold send_request, send_write. rewrite step_response_set_out by exact R.
+  rewrite (step_response_out _ e R). reflexivity.
+Qed.
+
+(* ... and in that intermediate state both tables already hold the entry of the new request *)
+Theorem registered_before_write s m rt cb mid w :
+  let s1 := send_register s m rt cb mid w in
+  iget (send_id_of s mid) (futs s1) = Some (FOut (length (ofuts s))) /\
+  iget (send_id_of s mid) (rtypes s1) = Some rt /\ out s1 = out s.
+Proof.
+  destruct mid; cbn; rewrite !(aget_aset_eq id_eqb id_eqb_eq); repeat split.
+Qed.
